@@ -137,3 +137,199 @@ hinst!(c15d_hex_literal_3, 3);
 hinst!(c15d_hex_literal_4, 4);
 hinst!(c15d_hex_literal_6, 6);
 hinst!(c15d_hex_literal_8, 8);
+
+// ---- C15b: the HSL view of an 8-bit colour (channel accessor results) ----
+
+/// Contract of `modulo` for the divisor 360, established on the real code by engine F (`c07_modulo`): finite dividend
+/// with |n1| < 2048*360 gives a finite result in [0, 360]. Anything else is outside the contract (and the harness).
+pub fn modulo_360_contract(n1: f64, n2: f64) -> f64 {
+    assert!(n2 == 360.0 && n1.is_finite() && n1.abs() < 2048.0 * 360.0, "C15b: as_hsla calls modulo outside the proved contract");
+    let r: f64 = kani::any();
+    kani::assume(r >= 0.0 && r <= 360.0);
+    r
+}
+
+fn hsla_view(c: &Color) {
+    let (h, s, l, a) = c.as_hsla();
+    assert!(a.0 >= 0.0 && a.0 <= 1.0, "C15b: alpha reported by as_hsla is outside [0,1]");
+    assert!(a.0 == c.alpha().0, "C15b: as_hsla and alpha() disagree on alpha");
+    assert!(h.0 >= 0.0 && h.0 <= 360.0, "C15b: hue outside [0,360]");
+    // d / (2 - max - min) is a quotient of two rounded differences: equal to 1 only up to the Sass tolerance
+    assert!(s.0 >= 0.0 && s.0 <= 1.0 + 1e-11, "C15b: saturation outside [0,1]");
+    assert!(l.0 >= 0.0 && l.0 <= 1.0, "C15b: lightness outside [0,1]");
+}
+
+/// A named colour / hex literal (`Color::new`: alpha byte 0 or 255 in the table) and the same colour from the
+/// clamping constructor, all 2^24 channel triples.
+#[kani::proof]
+#[kani::unwind(2)]
+#[kani::stub(grass_compiler::value::number::modulo, modulo_360_contract)]
+pub fn c15b_as_hsla_literal() {
+    let (r, g, b, a): (u8, u8, u8, u8) = (kani::any(), kani::any(), kani::any(), kani::any());
+    let c = Color::new(r, g, b, a, String::new());
+    kani::assume(a == 0 || a == 255);
+    hsla_view(&c);
+    kani::cover!(a == 255 && r != g, "opaque_named");
+    kani::cover!(true, "end");
+    core::mem::forget(c);
+}
+
+#[kani::proof]
+#[kani::unwind(2)]
+#[kani::stub(grass_compiler::value::number::modulo, modulo_360_contract)]
+pub fn c15b_as_hsla_rgba() {
+    let (r, g, b): (u8, u8, u8) = (kani::any(), kani::any(), kani::any());
+    let a: f64 = kani::any();
+    let c = Color::from_rgba(Number(r as f64), Number(g as f64), Number(b as f64), Number(a));
+    hsla_view(&c);
+    kani::cover!(a > 0.25 && a < 0.75 && r != g, "translucent");
+    kani::cover!(true, "end");
+    core::mem::forget(c);
+}
+
+// ---- C15c: hwb() construction keeps channels in range ----
+
+/// `Color::from_hwb` on the builtin's domain (whiteness and blackness in [0,100], any alpha, any finite hue with
+/// |hue| < 2^20): red, green, blue are integers in [0,255], alpha in [0,1].
+/// Documented contract of `f64::rem_euclid` for a finite dividend and the divisor 360: the least non-negative remainder,
+/// which "may equal the divisor due to rounding". (CBMC's own model of the float `%` is not exact: with the real
+/// `rem_euclid` and `fuzzy_round` this harness returned a counterexample that does not reproduce natively.)
+pub fn rem_euclid_360_contract(x: f64, rhs: f64) -> f64 {
+    assert!(rhs == 360.0 && x.is_finite(), "C15c: from_hwb calls rem_euclid outside the modelled contract");
+    let r: f64 = kani::any();
+    kani::assume(r >= 0.0 && r <= 360.0);
+    r
+}
+
+/// Contract of `fuzzy_round` decided on the real code by engine F (`c07_fuzzy_round`, |x| < 2^40): floor or ceil of x,
+/// floor when the fractional part is more than 1e-11 below one half (above, for negative x), ceil when it is at or
+/// within 4e-12 of one half or above (floor, for negative x).
+pub fn fuzzy_round_contract(x: f64) -> f64 {
+    assert!(x > -1099511627776.0 && x < 1099511627776.0, "C15c: fuzzy_round called outside the range decided by engine F");
+    let (fl, ce) = (x.floor(), x.ceil());
+    let frac = x - fl;
+    let up: bool = kani::any();
+    if x >= 0.0 {
+        kani::assume(!(frac < 0.5 - 1.0000001e-11) || !up);
+        kani::assume(!(frac >= 0.5 - 4e-12) || up);
+    } else {
+        kani::assume(!(frac > 0.5 + 1.0000001e-11) || up);
+        kani::assume(!(frac <= 0.5 + 4e-12) || !up);
+    }
+    if up { ce } else { fl }
+}
+
+fn hwb_check(h: f64, w: f64, b: f64, a: f64) {
+    let c = Color::from_hwb(Number(h), Number(w), Number(b), Number(a));
+    in_range(&c);
+    core::mem::forget(c);
+}
+
+/// Whiteness/blackness path: any doubles in [0,100] for both (and any f64 alpha), hue from a fixed list (so the three
+/// `hue_to_rgb` values are constants and the only products are constant x symbolic).
+fn hwb_wb(h: f64) {
+    let (w, b, a): (f64, f64, f64) = (kani::any(), kani::any(), kani::any());
+    kani::assume(w >= 0.0 && w <= 100.0 && b >= 0.0 && b <= 100.0);
+    hwb_check(h, w, b, a);
+    kani::cover!(w + b > 100.0 && w > 0.0 && w < 1e-13, "tiny_whiteness_normalised_sum");
+    kani::cover!(true, "end");
+}
+
+macro_rules! hwb_wb {
+    ($name:ident, $h:expr) => {
+        #[kani::proof]
+        #[kani::unwind(2)]
+        #[kani::stub(grass_compiler::value::number::fuzzy_round, fuzzy_round_contract)]
+        pub fn $name() { hwb_wb($h) }
+    };
+}
+hwb_wb!(c15c_from_hwb_wb_h0, 0.0);
+hwb_wb!(c15c_from_hwb_wb_h30, 30.0);
+hwb_wb!(c15c_from_hwb_wb_h200, 200.0);
+hwb_wb!(c15c_from_hwb_wb_h304, 304.28);
+
+/// Hue path: any finite hue with |hue| < 2^20, whiteness/blackness from a fixed list of pairs.
+#[kani::proof]
+#[kani::unwind(11)]
+#[kani::stub(f64::rem_euclid, rem_euclid_360_contract)]
+#[kani::stub(grass_compiler::value::number::fuzzy_round, fuzzy_round_contract)]
+pub fn c15c_from_hwb_hue() {
+    let h: f64 = kani::any();
+    kani::assume(h.is_finite() && h.abs() < 1048576.0);
+    const WB: [(f64, f64); 10] = [(0.0, 0.0), (100.0, 100.0), (0.0, 100.0), (100.0, 0.0), (50.0, 50.0), (30.0, 70.0),
+        (70.0, 60.0), (1e-14, 100.0), (12.5, 25.0), (33.3, 66.7)];
+    let mut k = 0;
+    while k < 10 {
+        hwb_check(h, WB[k].0, WB[k].1, 1.0);
+        k += 1;
+    }
+    kani::cover!(h < 0.0, "negative_hue");
+    kani::cover!(true, "end");
+}
+
+// ---- C15f: mix() at its end points, invert() twice ----
+
+fn any_color() -> (Color, [u8; 3], f64) {
+    let (r, g, b): (u8, u8, u8) = (kani::any(), kani::any(), kani::any());
+    let a: f64 = kani::any();
+    kani::assume(a >= 0.0 && a <= 1.0);
+    (Color::from_rgba(Number(r as f64), Number(g as f64), Number(b as f64), Number(a)), [r, g, b], a)
+}
+
+fn same_color(c: &Color, ch: [u8; 3], a: f64) -> bool {
+    c.red().0 == ch[0] as f64 && c.green().0 == ch[1] as f64 && c.blue().0 == ch[2] as f64 && c.alpha().0 == a
+}
+
+fn color_with_alpha(a: f64) -> (Color, [u8; 3]) {
+    let (r, g, b): (u8, u8, u8) = (kani::any(), kani::any(), kani::any());
+    (Color::from_rgba(Number(r as f64), Number(g as f64), Number(b as f64), Number(a)), [r, g, b])
+}
+
+/// mix($c1, $c2, 100%) is $c1 and mix($c1, $c2, 0%) is $c2, for all 8-bit colours and alpha pairs from a fixed list
+/// (the weight reaches `Color::mix` divided by 100). With both alphas symbolic the weight `(1 + d) / (1 + d)` is a
+/// symbolic quotient that multiplies six symbolic channels: no answer in 20 min.
+#[kani::proof]
+#[kani::unwind(8)]
+pub fn c15f_mix_endpoints() {
+    const ALPHAS: [(f64, f64); 7] = [(1.0, 1.0), (1.0, 0.5), (0.5, 1.0), (0.25, 0.75), (0.0, 1.0), (1.0, 0.0), (0.0, 0.0)];
+    let full: bool = kani::any();
+    let mut k = 0;
+    while k < 7 {
+        let (a1, a2) = ALPHAS[k];
+        let (c1, ch1) = color_with_alpha(a1);
+        let (c2, ch2) = color_with_alpha(a2);
+        let m = c1.mix(&c2, Number(if full { 1.0 } else { 0.0 }));
+        if full {
+            assert!(same_color(&m, ch1, a1), "C15f: mix with weight 100% is not the first colour");
+        } else {
+            assert!(same_color(&m, ch2, a2), "C15f: mix with weight 0% is not the second colour");
+        }
+        kani::cover!(full && k == 3 && ch1[0] != ch2[0], "full_weight_distinct");
+        kani::cover!(!full && k == 5 && ch1[0] != ch2[0], "zero_weight_distinct");
+        core::mem::forget(m);
+        core::mem::forget(c1);
+        core::mem::forget(c2);
+        k += 1;
+    }
+    kani::cover!(true, "end");
+}
+
+/// invert(invert($c)) is $c (default weight 100%), invert($c, 0%) is $c.
+#[kani::proof]
+#[kani::unwind(2)]
+pub fn c15f_invert_twice() {
+    let (c, ch, a) = any_color();
+    let i1 = c.invert(Number(1.0));
+    assert!(i1.red().0 == 255.0 - ch[0] as f64 && i1.green().0 == 255.0 - ch[1] as f64 && i1.blue().0 == 255.0 - ch[2] as f64
+        && i1.alpha().0 == a, "C15f: invert does not give 255 - channel with the same alpha");
+    let i2 = i1.invert(Number(1.0));
+    assert!(same_color(&i2, ch, a), "C15f: invert twice is not the identity");
+    let z = c.invert(Number(0.0));
+    assert!(same_color(&z, ch, a), "C15f: invert with weight 0 changes the colour");
+    kani::cover!(ch[0] != ch[1] && a < 1.0, "translucent");
+    kani::cover!(true, "end");
+    core::mem::forget(i1);
+    core::mem::forget(i2);
+    core::mem::forget(z);
+    core::mem::forget(c);
+}
